@@ -1,6 +1,8 @@
 """Shared analyses of molgri/space/voronoi.py, rotobj.py, utils.py for C03, C04, C15 (and C14 via C04's fold)."""
 from __future__ import annotations
 
+from fractions import Fraction
+
 import ast
 
 from .alg import Poly
@@ -115,6 +117,29 @@ def pairwise_matrix(ctx, repo, pid, dim, extra_kwargs=None):
             extras.setdefault(id(lst), [x.cond for x in chain_ if x is not main])
             return lp, main, fl
         extras = {}
+        # `for i in range(N): for j in range(i+1, N):` enumerates the same pairs, in the same order, as combinations(range(N), 2):
+        # the triangular nest is rewritten into one loop over the pair index k with i = comb_lo(k), j = comb_hi(k)
+        tri_k = {}
+
+        def triangular_to_comb(lst):
+            if not (isinstance(lst, ListV) and len(lst.items) == 1 and isinstance(lst.items[0], Loop)):
+                return lst
+            lo_ = lst.items[0]
+            if not (len(lo_.items) == 1 and isinstance(lo_.items[0], Loop) and lo_.extent == N):
+                return lst
+            li_ = lo_.items[0]
+            ia_, ja_ = Poly.atom(lo_.idx), Poly.atom(li_.idx)
+            if li_.extent != N - ia_ - 1:
+                return lst
+            key_ = (lo_.idx, li_.idx)
+            if key_ not in tri_k:
+                tri_k[key_] = interp.fresh_idx("k")
+            k_ = tri_k[key_]
+            lo_p, hi_p = Poly.app("comb_lo", Poly.atom(k_)), Poly.app("comb_hi", Poly.atom(k_))
+            inner = copy_items(li_.items)
+            subst_items(inner, {lo_.idx: lo_p, li_.idx: hi_p - lo_p - 1})
+            return ListV([Loop(k_, N * (N - 1) * Fraction(1, 2), inner, info=("combinations", N))], lst.kind)
+        rows, cols, vals = triangular_to_comb(rows), triangular_to_comb(cols), triangular_to_comb(vals)
         ur, uc, uv = unwrap(rows), unwrap(cols), unwrap(vals)
         if ur is None or uc is None or uv is None:
             top = contains_top(vals) or contains_top(rows) or contains_top(cols)
@@ -162,8 +187,13 @@ def pairwise_matrix(ctx, repo, pid, dim, extra_kwargs=None):
         c = g.cond
         thr = None
         lenterm = None
+        neg_ = False
+        if isinstance(c, CondV) and c.kind == "not" and len(c.args) == 1 and isinstance(c.args[0], CondV):
+            c, neg_ = c.args[0], True
         if isinstance(c, CondV) and c.kind == "opaque" and len(c.args) == 3:
             op_, a_, b_ = c.args
+            if neg_:
+                op_ = {"<": ">=", "<=": ">", ">": "<=", ">=": "<", "==": "!=", "!=": "=="}.get(op_, op_)
             if isinstance(a_, Term) and a_.op == "len" and isinstance(b_, Num) and op_ in (">=", ">"):
                 lenterm, thr = a_, (b_.p if op_ == ">=" else b_.p + 1)
             elif isinstance(b_, Term) and b_.op == "len" and isinstance(a_, Num) and op_ in ("<=", "<"):
